@@ -46,6 +46,21 @@ class PathBudget(Exception):
 # --------------------------------------------------------------------------------------
 
 
+def _quantifier_free(f):
+    seen = set()
+    stack = [f]
+    while stack:
+        e = stack.pop()
+        if z3.is_quantifier(e):
+            return False
+        i = e.get_id()
+        if i in seen:
+            continue
+        seen.add(i)
+        stack.extend(e.children())
+    return True
+
+
 class Ctx:
     """State of one symbolic execution path."""
 
@@ -68,6 +83,53 @@ class Ctx:
         self.unknown_feas = 0
         self.n_decisions = 0
         self.notes: list[str] = []
+        # quantifier-free twin of the path solver: everything except quantified formulas, plus hand-made instances of the row axioms
+        self.qf = z3.Solver()
+        self.has_quant = False
+        self.row_axioms: list = []      # (P: z3 Int -> z3 Bool, lo, hi)  meaning  for all lo <= i < hi: P(i)
+        self.row_terms: list = []       # z3 Int terms at which every row axiom is instantiated
+        self._instantiating = False
+
+    # -- row axioms (quantified facts over the rows of symbolic-length arrays) ---------------
+    def _row_instance(self, P, lo, hi, t):
+        self._instantiating = True
+        try:
+            return z3.Implies(z3.And(t >= lo, t < hi), P(t))
+        finally:
+            self._instantiating = False
+
+    def add_row_axiom(self, P, lo, hi, patterns=None):
+        """for all lo <= i < hi: P(i).  The path solver gets the quantified formula, the quantifier-free twin gets the instances at
+        every registered row term (each instance is a consequence of the quantified formula)."""
+        self.row_axioms.append((P, lo, hi))
+        i = z3.Int(self.fresh_name("q"))
+        self._instantiating = True
+        try:
+            body = z3.Implies(z3.And(i >= lo, i < hi), P(i))
+            pats = [p(i) for p in patterns] if patterns else []
+        finally:
+            self._instantiating = False
+        self.has_quant = True
+        q = z3.ForAll([i], body, patterns=pats) if pats else z3.ForAll([i], body)
+        self.axioms.append(q)
+        self.solver.add(q)
+        self.model = None
+        for t in list(self.row_terms):
+            self.qf.add(self._row_instance(P, lo, hi, t))
+
+    def register_row_term(self, t):
+        if self._instantiating:
+            return
+        t = z3.simplify(t) if not z3.is_int_value(t) else t
+        for u in self.row_terms:
+            if u.eq(t):
+                return
+        self.row_terms.append(t)
+        for P, lo, hi in list(self.row_axioms):
+            self.qf.add(self._row_instance(P, lo, hi, t))
+
+    def row_instances(self, terms):
+        return [self._row_instance(P, lo, hi, t) for t in terms for P, lo, hi in self.row_axioms]
 
     # -- fresh symbols -----------------------------------------------------------
     def fresh_name(self, base):
@@ -90,6 +152,10 @@ class Ctx:
             return
         self.pc.append(f)
         self.solver.add(f)
+        if _quantifier_free(f):
+            self.qf.add(f)
+        else:
+            self.has_quant = True
         m = getattr(self, "model", None)
         if m is not None:
             try:
@@ -102,6 +168,10 @@ class Ctx:
         """Ground fact about an uninterpreted symbol; part of every later query."""
         self.axioms.append(f)
         self.solver.add(f)
+        if _quantifier_free(f):
+            self.qf.add(f)
+        else:
+            self.has_quant = True
         self.model = None
 
     def _check(self, *extra):
